@@ -174,6 +174,7 @@ pub fn run(args: &[String]) -> i32 {
     }
     if what == "all" {
         // one-off searches that the checks would otherwise repeat (kept under build/cache)
+        #[cfg(feature = "keyring")]
         crate::fam::a9::warm_caches();
         println!("selftest ok   caches warmed");
     }
